@@ -16,6 +16,7 @@ CONSTANTS
   CloseShortcut = FALSE
   MaxConflicts = 1
   RecordScript = FALSE
+  NetLoss = TRUE
 
 INVARIANTS Conservation
 PROPERTIES EventuallyDelivered
